@@ -743,7 +743,50 @@ class _Inliner:
                 for m in n.body:
                     if isinstance(m, ast.FunctionDef):
                         self.function(m, n.name, f'{n.name}.{m.name}')
+        if self.count:
+            self.drop_dead_helpers()
         return self.count
+
+    def drop_dead_helpers(self):
+        """A new helper that is no longer referenced anywhere (every call
+        was inlined) is removed: it would otherwise be judged a second
+        time as a function of its own."""
+        def referenced(name, skip):
+            for x in ast.walk(self.tree):
+                if x is skip:
+                    continue
+                if isinstance(x, ast.Name) and x.id == name:
+                    return True
+                if isinstance(x, ast.Attribute) and x.attr == name:
+                    return True
+                if isinstance(x, ast.Constant) and x.value == name:
+                    return True
+            return False
+
+        def prune(body, prefix):
+            for st in list(body):
+                if isinstance(st, ast.FunctionDef) and \
+                        self.is_new(prefix + st.name) and \
+                        not st.name.startswith('__') and \
+                        not referenced(st.name, st):
+                    # references inside the helper itself do not count
+                    inner = any(isinstance(x, ast.Name) and x.id == st.name
+                                for x in ast.walk(st))
+                    if not inner:
+                        body.remove(st)
+                        if not body:
+                            body.append(ast.Pass())
+        prune(self.tree.body, '')
+        for n in self.tree.body:
+            if isinstance(n, ast.ClassDef):
+                prune(n.body, n.name + '.')
+            if isinstance(n, ast.FunctionDef):
+                prune(n.body, n.name + '.')
+        for n in self.tree.body:
+            if isinstance(n, ast.ClassDef):
+                for m in n.body:
+                    if isinstance(m, ast.FunctionDef):
+                        prune(m.body, f'{n.name}.{m.name}.')
 
     caller_names = set()
     target_names = set()
